@@ -467,6 +467,11 @@ static void run_job(const Job &jb, const std::map<std::string, MeshDef> &meshes)
         const MeshDef &d = meshes.at(jb.mesh);
         with_mesh(d.type, [&](auto &m1) {
             build(m1, d);
+            {   // the source mesh goes out first: it is on record even if a later step dies
+                Json pre; job_header(pre, "tripm", jb); pre.kv("mt1", d.type); pre.key("m1"); dump_mesh(pre, m1); pre.end_obj();
+                pre.s += '\n';
+                ssize_t w = write(1, pre.s.data(), pre.s.size()); (void)w;
+            }
             job_header(j, "trip", jb);
             j.kv("mt1", d.type);
             j.key("m1"); dump_mesh(j, m1);
